@@ -544,7 +544,14 @@ def pipeline(c):
                     if x.get("op") == "request":
                         steps_by_id[x["id"]] = cur
                 cur = []
+    batch_steps, batch_pos = {}, {}
+    for bi, steps, metas, bname in jobs:
+        batch_steps[str(bi)] = steps
+        for idx, st_ in enumerate(steps):
+            if st_.get("op") == "request":
+                batch_pos[st_["id"]] = [str(bi), idx, bname]
     out = {"rows": rows, "drifts": drifts, "panics": panics, "events": nev, "cases": len(cases),
+           "batch_steps": batch_steps, "batch_pos": batch_pos,
            "gen": {"distinct": res.distinct, "generated": res.generated},
            "skipped": sum(1 for j in jobs for m in j[2] if m["skip"]),
            "steps_by_id": steps_by_id, "meta_by_id": {m["id"]: m for j in jobs for m in j[2] if not m["skip"]}}
@@ -552,11 +559,13 @@ def pipeline(c):
     return out
 
 
-def replay_steps(c, prop, steps, meta):
+def replay_steps(c, prop, steps, meta, old_name=None):
     """re-execute one scenario and decide the property on the fresh observation; True = still violated"""
     name = "proxy_re_%s_%d" % (prop, os.getpid())
     meta = dict(meta)
     old_exe = meta["caller"]["exe"]
+    if old_name:
+        old_exe = os.path.join(util.BUILD, "run", old_name, "verif-agent")
     new_exe = os.path.join(util.BUILD, "run", name, "verif-agent")
     steps = json.loads(json.dumps(steps).replace(old_exe, new_exe))
     meta = json.loads(json.dumps(meta).replace(old_exe, new_exe))
@@ -640,8 +649,16 @@ def decide(c, prop, *, relevant=lambda row: True):
         sig = {"broken": broken, "dest": row.get("dest"), "rules": row.get("rules"), "attributed": row.get("attributed"),
                "elevated": row.get("elevated"), "prov": row.get("prov"), "trav": row.get("trav")}
         if steps and not replay_steps(c, prop, steps, data["meta_by_id"][rid]):
-            c.extra["unreproduced"] = {"id": rid, "why": why}
-            raise util.ToolError("a rejected observation (%s, %s) did not reproduce from its artefact; not believed" % (rid, why))
+            # the behaviour may depend on state left by earlier scenarios of the same run (a cache, a stale record):
+            # replay the batch from its start up to and including this scenario
+            bi, idx, bname = data["batch_pos"][rid]
+            pre = data["batch_steps"][bi]
+            end = next((j for j in range(idx, len(pre)) if pre[j].get("op") == "mark" and str(pre[j].get("tag", "")).startswith("end:")
+                        or (pre[j].get("op") == "close" and str(pre[j].get("conn", "")).startswith("k"))), len(pre) - 1)
+            steps = pre[:end + 1]
+            if not replay_steps(c, prop, steps, data["meta_by_id"][rid], old_name=bname):
+                c.extra["unreproduced"] = {"id": rid, "why": why}
+                raise util.ToolError("a rejected observation (%s, %s) did not reproduce from its artefact; not believed" % (rid, why))
         kf = findings.match(prop, sig)
         c.violation("%s broken on observed request %s: %s; obs=%s" % (
             prop, rid, why, json.dumps({k: v for k, v in row.items() if k not in ("doc", "url", "caller")})),
